@@ -56,7 +56,7 @@ def run_unit(u, unit_dir, repo_root, scratch, tier):
     any_fail = False
     any_undecided = None
     def run_one(h):
-        cmd = ['cargo', 'kani', '--harness', h['name']] + h.get('args', [])
+        cmd = ['cargo', 'kani', '--harness', h['name'], '--exact'] + h.get('args', [])
         th = time.time()
         try:
             def _lim():
